@@ -8,7 +8,7 @@ REQUIRED = ["CifModel.C08_firstChar_link", "CifModel.C08_fold_prefix", "CifModel
             "CifModel.C08_buffer_init", "CifModel.C08_ws_lengthening", "CifModel.C08_ws_lengthening_insert",
             "CifModel.C08_ws_lengthening_any_chunking"]
 GEN = ["ParseConsts"]
-FAMILIES = ["fills", "align"]
+FAMILIES = ["fills", "align", "bufscan"]
 TRUSTED_BASE = [
     "Lean 4.33.0 kernel; axioms propext, Quot.sound, Classical.choice only",
     "Model/Fill.lean as a description of get_first_char / get_more_chars / HANDLE_EOL (parser.c): tied by family `fills`, which "
